@@ -84,6 +84,7 @@ def grammar_files():
         "cycles2": v + "/corpus/cycles2.pest",
         "optim": v + "/corpus/optim.pest",
         "tags": v + "/corpus/tags.pest",
+        "ring": v + "/corpus/ring.pest",
     }
     bad = {n: v + "/corpus/bad/%s.pest" % n for n in ("leftrec", "undefined", "nonprogress", "syntaxerr", "duplicate")}
     for p in list(good.values()) + list(bad.values()):
